@@ -586,6 +586,7 @@ func (pk *Packet) DisconnectDecode(buf []byte) error {
 
 // PingreqEncode encodes a Pingreq packet.
 func (pk *Packet) PingreqEncode(buf *bytes.Buffer) error {
+	pk.FixedHeader.Remaining = 0
 	pk.FixedHeader.Encode(buf)
 	return nil
 }
@@ -597,6 +598,7 @@ func (pk *Packet) PingreqDecode(buf []byte) error {
 
 // PingrespEncode encodes a Pingresp packet.
 func (pk *Packet) PingrespEncode(buf *bytes.Buffer) error {
+	pk.FixedHeader.Remaining = 0
 	pk.FixedHeader.Encode(buf)
 	return nil
 }
@@ -709,7 +711,7 @@ func (pk *Packet) encodePubAckRelRecComp(buf *bytes.Buffer) error {
 		pb := mempool.GetBuffer()
 		defer mempool.PutBuffer(pb)
 		pk.Properties.Encode(pk.FixedHeader.Type, pk.Mods, pb, nb.Len())
-		if pk.ReasonCode >= ErrUnspecifiedError.Code || pb.Len() > 1 {
+		if pk.ReasonCode != CodeSuccess.Code || pb.Len() > 1 { // only reason code 0x00 (Success) may be omitted [MQTT-3.4.2.1]
 			nb.WriteByte(pk.ReasonCode)
 		}
 
